@@ -418,7 +418,7 @@ fn modes() -> Vec<Mode> {
 
 fn cfgs(t: bool) -> Vec<Cfg> {
     vec![
-        Cfg { name: "fine".into(), moves: FINE.to_vec(), deviations: vec![], max_dev: 0, max_total: if t { 9 * 1024 } else { 5 * 1024 } },
+        Cfg { name: "fine".into(), moves: FINE.to_vec(), deviations: vec![], max_dev: 0, max_total: if t { 20 * 1024 } else { 8 * 1024 } },
         Cfg { name: "coarse".into(), moves: COARSE.to_vec(), deviations: COARSE_DEV.to_vec(), max_dev: if t { 3 } else { 2 }, max_total: if t { 1100 * 1024 } else { 300 * 1024 } },
     ]
 }
